@@ -1,9 +1,9 @@
 ----------------------------- MODULE Gen_Windows -----------------------------
 (* Enumerates texts (as slots = UTF-8 lengths 1..4, 5 = 8-byte flag cluster, 6 = *)
-(* e + combining acute) x window configurations for replay of C16.               *)
+(* e + combining acute, 7 = CRLF: an ASCII cluster) x configurations, for C16.    *)
 EXTENDS Naturals, Sequences, FiniteSets, SequencesExt, TLC, Json, IOUtils
 CONSTANTS MaxN, MaxMax, MaxCtx
-Texts == UNION {[1..n -> 1..6] : n \in 1..MaxN}
+Texts == UNION {[1..n -> 1..7] : n \in 1..MaxN}
 Cases == {[slots |-> t, kind |-> k, g |-> g, max |-> m, ctx |-> c] :
              t \in Texts, k \in {"char", "byte"}, g \in BOOLEAN, m \in 0..MaxMax, c \in 0..MaxCtx}
          \cup {[slots |-> t, kind |-> "full", g |-> g, max |-> 0, ctx |-> 0] : t \in Texts, g \in BOOLEAN}
